@@ -1,5 +1,5 @@
 SPECIFICATION Spec
-CONSTANTS MaxDim = 3  Depth = 3  Emit = FALSE
+CONSTANTS MaxDim = 3  Depth = 3  FullInit = TRUE  Emit = FALSE
 VIEW View
 INVARIANTS Shape Laws
 CHECK_DEADLOCK FALSE
